@@ -35,6 +35,11 @@ const sizeFlowAssets = `{
      {"uuid": "e97cd6d5-3354-4dbd-85bc-6c1f87849eec", "type": "send_msg", "text": "@input.text", "quick_replies": ["@input.text", "ok", "@(\"\")"],
       "attachments": ["image/jpeg:http://x.com/@(url_encode(input.text)).jpg"]},
      {"uuid": "f01d693b-2af2-49fb-9e38-146eb00937e9", "type": "send_msg", "text": "You said: @input.text!"},
+     {"uuid": "0b7ad6c4-6f0c-4b56-9a4b-3f5a2b8a1c11", "type": "send_msg", "text": "@(1 / 0) and @contact.nope then @input.text",
+      "quick_replies": ["@(1 / 0)@input.text", "@(upper(1, 2)) @input.text"],
+      "attachments": ["image/jpeg:http://x.com/@(1 / 0)/@(url_encode(input.text)).jpg"]},
+     {"uuid": "5d0a8f52-1a3c-4a3e-8f6d-7c9e2b4d6f22", "type": "set_contact_name", "name": "@(1 / 0)@input.text"},
+     {"uuid": "6e1b9a63-2b4d-4b4f-9a7e-8d0f3c5e7a33", "type": "set_run_result", "name": "R", "value": "@(1 / 0)@input.text", "category": "C"},
      {"uuid": "9487a60e-a6ef-4a88-b35d-894bfe074144", "type": "set_contact_name", "name": "@input.text"},
      {"uuid": "3248a064-bc42-4dff-aa0f-93d85de2f600", "type": "set_contact_field", "field": {"key": "gender", "name": "Gender"}, "value": "@input.text"},
      {"uuid": "d2a4052a-3fa9-4608-ab3e-5b9631440447", "type": "set_run_result", "name": "R", "value": "@input.text", "category": "C"}],
@@ -363,6 +368,32 @@ func adversarialCorpus() []*engCase {
 		for _, ms := range []int{1, 2, 10} {
 			out = append(out, &engCase{GA: mk(self), MaxSteps: ms, MaxResumes: 500, Trigger: "manual", StartFlow: 0, Seed: 13})
 			out = append(out, &engCase{GA: mk(a, b), MaxSteps: ms, MaxResumes: 500, Trigger: "manual", StartFlow: 0, Seed: 14})
+		}
+	}
+	// (7) a voice flow whose dial wait leads back to itself (redial), alone and after a msg wait: every kind of wait counts
+	// towards MaxResumesPerSession
+	{
+		dialNode := func(dest int) *genNode {
+			e := genExit{UUID: us.next(), Dest: dest}
+			cu := us.next()
+			return &genNode{UUID: us.next(), Exits: []genExit{e}, HasWait: "d", Router: map[string]any{"type": "switch",
+				"wait": map[string]any{"type": "dial", "phone": "+12065551212"}, "operand": "@(default(resume.dial.status, \"\"))", "cases": []any{},
+				"default_category_uuid": cu, "categories": []map[string]any{{"uuid": cu, "name": "All", "exit_uuid": e.UUID}}}}
+		}
+		dials := func(k int) []string {
+			var r []string
+			for i := 0; i < k; i++ {
+				r = append(r, "dial:busy")
+			}
+			return r
+		}
+		for _, mr := range []int{1, 2, 3, 5} {
+			redial := &genFlow{UUID: us.next(), Name: "Redial", Type: "voice"}
+			redial.Nodes = []*genNode{dialNode(0)}
+			out = append(out, &engCase{GA: mk(redial), Voice: true, MaxSteps: 100, MaxResumes: mr, Trigger: "manual", StartFlow: 0, Resumes: dials(mr + 5), Seed: 16})
+			mixed := &genFlow{UUID: us.next(), Name: "Ask then dial", Type: "voice"}
+			mixed.Nodes = []*genNode{waitNode(1), dialNode(1)}
+			out = append(out, &engCase{GA: mk(mixed), Voice: true, MaxSteps: 100, MaxResumes: mr, Trigger: "manual", StartFlow: 0, Resumes: append([]string{"msg:red"}, dials(mr+5)...), Seed: 17})
 		}
 	}
 	// (6) the step budget runs out exactly at a flow entry, after a wait
